@@ -212,6 +212,8 @@ func (s *Server) createConn(connection *coapNet.Conn, inactivityMonitor client.I
 	cfg.GetToken = s.cfg.GetToken
 	cfg.ProcessReceivedMessage = s.cfg.ProcessReceivedMessage
 	cfg.ReceivedMessageQueueSize = s.cfg.ReceivedMessageQueueSize
+	cfg.LimitClientParallelRequests = s.cfg.LimitClientParallelRequests
+	cfg.LimitClientEndpointParallelRequests = s.cfg.LimitClientEndpointParallelRequests
 	cc := client.NewConnWithOpts(
 		connection,
 		&cfg,
